@@ -16,6 +16,20 @@ CLAIMED = {
                   "ConfigFile/EXL and every call's arguments and results are validated by TLC against the specification.",
              note="Trusts TLC, gen/text.py (independent renderer), the shim's projection; quantifier limited to distinct category names and text without structural characters.",
              ref="5 C08"),
+ "C10": dict(cat="model_checking", tech="TLC check of Meta.tla round trips + TLC trace validation of tables/lists (SHA-1 evaluated in TLA+)",
+             text="Meta.tla gives the 96-byte record layout and the patch-list grammar with decimal-string arithmetic for 63-bit totals; "
+                  "TLC checks render/parse round trips on a small domain; FileInfo::new on real files of every length 0..300 plus padding "
+                  "edges, and patch lists rendered by the library and by an independent concretiser, are validated event by event, "
+                  "with the digest recomputed by the specification's own FIPS 180-1 SHA-1.",
+             note="Trusts TLC, gen/meta.py, the shim's projection; FIIN layout corroborated by the repository fixture.",
+             ref="5 C10"),
+ "C12": dict(cat="model_checking", tech="TLC evaluation of Hashes.tla (CRC register machine, SHA-1) against published vectors + trace validation of the real hash functions",
+             text="Hashes.tla defines the reflected CRC-32 bit-serially and table-driven (proved equal for every byte on three registers), JAMCRC, "
+                  "the zero-initialised variant and SHA-1, checked against published values; every ASCII string of length <= 2, class "
+                  "representatives to length 4, every length 0..300 in both cases and every SHA-1 content length 0..300 are hashed by the real "
+                  "library and compared by TLC.",
+             note="Trusts TLC and the Bitwise Java overrides; exhaustive only within the stated length bounds.",
+             ref="5 C12"),
 }
 REASON_PENDING = "check not built yet in this session (see DESIGN.md section 5); will be claimed when its trace specification exists"
 
